@@ -31,12 +31,26 @@ func (this *nodesManagerServer) ListNodes(req *pb.EmptyMessage, stream pb.NodesM
 }
 
 func (this *nodesManagerServer) AddNode(req *pb.Node, stream pb.NodesManager_AddNodeServer) error {
+	// Tell the joiner the current members before the membership change is
+	// proposed. The proposal waits for a leader; a joiner that restarted before
+	// the log reached it has no other way to learn the addresses it needs to
+	// answer its peers (and, in a small cluster, to let them elect that leader).
+	known := this.nodesManager.ListNodes()
+	for nodeId, address := range known {
+		if err := stream.Send(&pb.Node{Id: nodeId, Address: address}); err != nil {
+			return err
+		}
+	}
+
 	nodes, err := this.nodesManager.AddNode(req.GetId(), req.GetAddress())
 	if err != nil {
 		return err
 	}
 
 	for nodeId, address := range nodes {
+		if knownAddress, sent := known[nodeId]; sent && knownAddress == address {
+			continue
+		}
 		if err := stream.Send(&pb.Node{Id: nodeId, Address: address}); err != nil {
 			return err
 		}
